@@ -9,6 +9,8 @@
 #include "domains.h"
 #include "proto.h"
 #include <givaro/givpoly1.h>
+#include <givaro/zring.h>
+#include <givaro/gf2.h>
 
 using namespace Givaro;
 
@@ -49,14 +51,16 @@ static void alias_ring(const std::string& kind, const D& F, const std::vector<In
         F.OP(R, A, B, A); e = show(F, R);                                                                               \
         F.assign(X, A); F.OP(X, X, B, X); emit(kind, #OP, "rac", cs, e, show(F, X));                                    \
         F.OP(R, A, A, A); e = show(F, R);                                                                               \
-        F.assign(X, A); F.OP(X, X, X, X); emit(kind, #OP, "rabc", cs, e, show(F, X));
+        F.assign(X, A); F.OP(X, X, X, X); emit(kind, #OP, "rabc", cs, e, show(F, X));                                   \
+        F.OP(R, A, B, B); e = show(F, R);                                                                               \
+        F.assign(X, B); F.OP(X, A, X, X); emit(kind, #OP, "rbc", cs, e, show(F, X));
         TER(axpy) TER(axmy) TER(maxpy)
         F.neg(R, A); e = show(F, R);
         F.assign(X, A); F.neg(X, X); emit(kind, "neg", "ra", cs, e, show(F, X));
-        if (!F.isZero(A)) {
+        if (!F.isZero(A)) try {
             F.inv(R, A); e = show(F, R);
             F.assign(X, A); F.inv(X, X); emit(kind, "inv", "ra", cs, e, show(F, X));
-        }
+        } catch (const GivMathError&) {}      // not a unit (ZRing)
         // in-place forms with the operand being the destination itself: x op= x
 #define INPL(OP, REF)                                                                                                  \
         F.REF(R, A, A); e = show(F, R);                                                                                 \
@@ -69,6 +73,13 @@ static void alias_ring(const std::string& kind, const D& F, const std::vector<In
         F.assign(X, A); F.maxpyin(X, X, X); emit(kind, "maxpyin", "rab", cs, e, show(F, X));
         F.axmy(R, A, A, A); e = show(F, R);
         F.assign(X, A); F.axmyin(X, X, X); emit(kind, "axmyin", "rab", cs, e, show(F, X));
+        // r op= a*b with r being a only / b only:  OPin(r, r, b) = OP(., r, b, r),  OPin(r, a, r) = OP(., a, r, r)
+#define TERIN(OPIN, OP)                                                                                                \
+        F.OP(R, A, B, A); e = show(F, R);                                                                               \
+        F.assign(X, A); F.OPIN(X, X, B); emit(kind, #OPIN, "ra", cs, e, show(F, X));                                    \
+        F.OP(R, A, B, B); e = show(F, R);                                                                               \
+        F.assign(X, B); F.OPIN(X, A, X); emit(kind, #OPIN, "rb", cs, e, show(F, X));
+        TERIN(axpyin, axpy) TERIN(maxpyin, maxpy) TERIN(axmyin, axmy)
     }
 }
 
@@ -118,6 +129,138 @@ static void alias_poly(const std::string& kind, const PD& P, vp::Rng& rng, int n
     }
 }
 
+// ---- polynomial interface, second part: scalar forms, cofactors, modular forms, pseudo-division, long operands ----------------
+template <class PD>
+static void alias_poly2(const std::string& kind, const PD& P, vp::Rng& rng, int ncases) {
+    typedef typename PD::Element Pol;
+    typedef typename PD::Type_t Sc;
+    const typename PD::Domain_t& F = P.getdomain();
+    for (int cs = 0; cs < ncases; ++cs) {
+        Pol A, B, C, R, Q, X, Y, Z, S, T, S2, T2;
+        const bool big = (cs % 8 == 7);                                   // beyond KARA_THRESHOLD / SQR_THRESHOLD
+        const int dA = big ? 110 + int(rng.below(20)) : int(rng.below(7));
+        const int dB = big ? 60 + int(rng.below(60)) : int(rng.below(5));
+        const int dC = int(rng.below(4));
+        Sc c, u, m, m2;
+        P.init(A, Degree(dA)); P.init(B, Degree(dB)); P.init(C, Degree(dC));
+        for (int i = 0; i <= dA; ++i) { F.init(c, Integer(uint64_t(rng.below(97)))); A[size_t(i)] = c; }
+        for (int i = 0; i <= dB; ++i) { F.init(c, Integer(uint64_t(rng.below(97)))); B[size_t(i)] = c; }
+        for (int i = 0; i <= dC; ++i) { F.init(c, Integer(uint64_t(rng.below(97)))); C[size_t(i)] = c; }
+        F.init(c, Integer(1)); A[size_t(dA)] = c; C[size_t(dC)] = c;
+        F.init(c, Integer(uint64_t(1 + rng.below(96)))); B[size_t(dB)] = c;     // B not monic (pseudo-division, cofactors)
+        F.init(u, Integer(uint64_t(2 + rng.below(90))));
+        std::string e;
+        // long products
+        PBIN(mul) PBIN(stdmul) PBIN(karamul)
+        P.sqr(R, A); e = show(P, R);
+        P.assign(X, A); P.sqr(X, X); emit(kind, "sqr", "ra", cs, e, show(P, X));
+        if (!big) {
+            PBIN(lcm)
+            // truncated product
+            const Degree lo(1), hi(3);
+            P.mul(R, A, B, lo, hi); e = show(P, R);
+            P.assign(X, A); P.mul(X, X, B, lo, hi); emit(kind, "multrunc", "ra", cs, e, show(P, X));
+            P.assign(X, B); P.mul(X, A, X, lo, hi); emit(kind, "multrunc", "rb", cs, e, show(P, X));
+        }
+        // scalar forms
+#define PSC(NAME, CALLR, CALLX)                                                                                        \
+        CALLR; e = show(P, R); P.assign(X, A); CALLX; emit(kind, NAME, "ra", cs, e, show(P, X));
+        PSC("mul_s", P.mul(R, A, u), P.mul(X, X, u))
+        PSC("s_mul", P.mul(R, u, A), P.mul(X, u, X))
+        PSC("div_s", P.div(R, A, u), P.div(X, X, u))
+        PSC("add_s", P.add(R, A, u), P.add(X, X, u))
+        PSC("s_add", P.add(R, u, A), P.add(X, u, X))
+        PSC("sub_s", P.sub(R, A, u), P.sub(X, X, u))
+        PSC("s_sub", P.sub(R, u, A), P.sub(X, u, X))
+#define PSTER(OP, NAME)                                                                                                \
+        P.OP(R, u, A, B); e = show(P, R);                                                                               \
+        P.assign(X, A); P.OP(X, u, X, B); emit(kind, NAME, "rb", cs, e, show(P, X));                                    \
+        P.assign(X, B); P.OP(X, u, A, X); emit(kind, NAME, "rc", cs, e, show(P, X));                                    \
+        P.OP(R, u, B, A); e = show(P, R);                                                                               \
+        P.assign(X, B); P.OP(X, u, X, A); emit(kind, NAME, "rb'", cs, e, show(P, X));                                   \
+        P.assign(X, A); P.OP(X, u, B, X); emit(kind, NAME, "rc'", cs, e, show(P, X));                                   \
+        P.OP(R, u, A, A); e = show(P, R);                                                                               \
+        P.assign(X, A); P.OP(X, u, X, X); emit(kind, NAME, "rbc", cs, e, show(P, X));
+        PSTER(axpy, "axpy_s") PSTER(axmy, "axmy_s")
+#ifdef ALIAS_MAXPY_S   // Poly1Dom::maxpy(Rep&, const Type_t&, const Rep&, const Rep&) does not instantiate (it calls Rep::copy): not an aliasing matter
+        PSTER(maxpy, "maxpy_s")
+#endif
+        // three polynomial operands: remaining patterns
+#define PTER2(OP)                                                                                                      \
+        P.OP(R, A, A, C); e = show(P, R);                                                                               \
+        P.assign(X, A); P.OP(X, X, X, C); emit(kind, #OP, "rab", cs, e, show(P, X));                                    \
+        P.OP(R, A, B, A); e = show(P, R);                                                                               \
+        P.assign(X, A); P.OP(X, X, B, X); emit(kind, #OP, "rac", cs, e, show(P, X));                                    \
+        P.OP(R, A, A, A); e = show(P, R);                                                                               \
+        P.assign(X, A); P.OP(X, X, X, X); emit(kind, #OP, "rabc", cs, e, show(P, X));
+        PTER2(axpy) PTER2(axmy) PTER2(maxpy)
+#define PTERIN(OPIN, OP)                                                                                               \
+        P.OP(R, A, B, A); e = show(P, R);                                                                               \
+        P.assign(X, A); P.OPIN(X, X, B); emit(kind, #OPIN, "ra", cs, e, show(P, X));                                    \
+        P.OP(R, A, B, B); e = show(P, R);                                                                               \
+        P.assign(X, B); P.OPIN(X, A, X); emit(kind, #OPIN, "rb", cs, e, show(P, X));                                    \
+        P.OP(R, A, A, A); e = show(P, R);                                                                               \
+        P.assign(X, A); P.OPIN(X, X, X); emit(kind, #OPIN, "rab", cs, e, show(P, X));
+        PTERIN(axpyin, axpy) PTERIN(maxpyin, maxpy) PTERIN(axmyin, axmy)
+        // in-place division forms with themselves
+        P.div(R, A, A); e = show(P, R); P.assign(X, A); P.divin(X, X); emit(kind, "divin", "rr", cs, e, show(P, X));
+        P.mod(R, A, A); e = show(P, R); P.assign(X, A); P.modin(X, X); emit(kind, "modin", "rr", cs, e, show(P, X));
+        // divmodin(Q, R, B): R = B Q + newR
+        P.assign(Y, A); P.divmodin(Q, Y, B); e = show(P, Q) + " ; " + show(P, Y);
+        P.assign(Y, A); P.assign(X, B); P.divmodin(X, Y, X); emit(kind, "divmodin", "qb", cs, e, show(P, X) + " ; " + show(P, Y));
+        // derivative, reverse
+        P.diff(R, A); e = show(P, R); P.assign(X, A); P.diff(X, X); emit(kind, "diff", "ra", cs, e, show(P, X));
+        P.reverse(R, A); e = show(P, R); P.assign(X, A); P.reverse(X, X); emit(kind, "reverse", "ra", cs, e, show(P, X));
+        if (big) continue;
+        // pseudo-division
+        P.pdivmod(Q, R, m, A, B); e = show(P, Q) + " ; " + show(P, R) + " ; " + show(F, m);
+        P.assign(X, A); P.pdivmod(X, Y, m2, X, B); emit(kind, "pdivmod", "qa", cs, e, show(P, X) + " ; " + show(P, Y) + " ; " + show(F, m2));
+        P.assign(X, B); P.pdivmod(X, Y, m2, A, X); emit(kind, "pdivmod", "qb", cs, e, show(P, X) + " ; " + show(P, Y) + " ; " + show(F, m2));
+        P.assign(Y, A); P.pdivmod(X, Y, m2, Y, B); emit(kind, "pdivmod", "ra", cs, e, show(P, X) + " ; " + show(P, Y) + " ; " + show(F, m2));
+        P.assign(Y, B); P.pdivmod(X, Y, m2, A, Y); emit(kind, "pdivmod", "rb", cs, e, show(P, X) + " ; " + show(P, Y) + " ; " + show(F, m2));
+        P.pmod(R, m, A, B); e = show(P, R) + " ; " + show(F, m);
+        P.assign(Y, A); P.pmod(Y, m2, Y, B); emit(kind, "pmod", "ra", cs, e, show(P, Y) + " ; " + show(F, m2));
+        P.assign(Y, B); P.pmod(Y, m2, A, Y); emit(kind, "pmod", "rb", cs, e, show(P, Y) + " ; " + show(F, m2));
+        // gcd with cofactors: gcd(G, S, T, A, B)
+        P.gcd(R, S, T, A, B); e = show(P, R) + " ; " + show(P, S) + " ; " + show(P, T);
+#define PGCD(PAT, SETUP, CALL, G_, S_, T_)                                                                             \
+        SETUP; CALL; emit(kind, "gcdext", PAT, cs, e, show(P, G_) + " ; " + show(P, S_) + " ; " + show(P, T_));
+        PGCD("ga", P.assign(X, A), P.gcd(X, S2, T2, X, B), X, S2, T2)
+        PGCD("gb", P.assign(X, B), P.gcd(X, S2, T2, A, X), X, S2, T2)
+        PGCD("sa", P.assign(X, A), P.gcd(Z, X, T2, X, B), Z, X, T2)
+        PGCD("sb", P.assign(X, B), P.gcd(Z, X, T2, A, X), Z, X, T2)
+        PGCD("ta", P.assign(X, A), P.gcd(Z, S2, X, X, B), Z, S2, X)
+        PGCD("tb", P.assign(X, B), P.gcd(Z, S2, X, A, X), Z, S2, X)
+        // the same with a constant operand (early exits of gcd)
+        P.gcd(R, S, T, A, C.size() == 1 ? C : P.one); e = show(P, R) + " ; " + show(P, S) + " ; " + show(P, T);
+        { Pol K; P.assign(K, C.size() == 1 ? C : P.one);
+          PGCD("gb0", P.assign(X, K), P.gcd(X, S2, T2, A, X), X, S2, T2)
+          PGCD("sa0", P.assign(X, A), P.gcd(Z, X, T2, X, K), Z, X, T2)
+          PGCD("tb0", P.assign(X, K), P.gcd(Z, S2, X, A, X), Z, S2, X)
+          P.gcd(R, S, T, K, A); e = show(P, R) + " ; " + show(P, S) + " ; " + show(P, T);
+          PGCD("ga0", P.assign(X, K), P.gcd(X, S2, T2, X, A), X, S2, T2)
+          PGCD("sa0'", P.assign(X, K), P.gcd(Z, X, T2, X, A), Z, X, T2)
+          PGCD("ta0", P.assign(X, K), P.gcd(Z, S2, X, X, A), Z, S2, X)
+          PGCD("tb0'", P.assign(X, A), P.gcd(Z, S2, X, K, X), Z, S2, X) }
+        // modular forms (B of positive degree)
+        if (dB > 0) {
+            P.invmod(R, A, B); e = show(P, R);
+            P.assign(X, A); P.invmod(X, X, B); emit(kind, "invmod", "ra", cs, e, show(P, X));
+            P.assign(X, B); P.invmod(X, A, X); emit(kind, "invmod", "rb", cs, e, show(P, X));
+            P.invmodunit(R, A, B); e = show(P, R);
+            P.assign(X, A); P.invmodunit(X, X, B); emit(kind, "invmodunit", "ra", cs, e, show(P, X));
+            P.assign(X, B); P.invmodunit(X, A, X); emit(kind, "invmodunit", "rb", cs, e, show(P, X));
+            const Integer n(uint64_t(1 + rng.below(40)));
+            P.powmod(R, A, n, B); e = show(P, R);
+            P.assign(X, A); P.powmod(X, X, n, B); emit(kind, "powmod", "ra", cs, e, show(P, X));
+            P.assign(X, B); P.powmod(X, A, n, X); emit(kind, "powmod", "ru", cs, e, show(P, X));
+        }
+        { const uint64_t n = rng.below(6);
+          P.pow(R, A, n); e = show(P, R);
+          P.assign(X, A); P.pow(X, X, n); emit(kind, "pow", "ra", cs, e, show(P, X)); }
+    }
+}
+
 // ---- rationals through their operators ---------------------------------------------------------------------------------------
 static void alias_rational(const std::string& kind, const std::vector<Integer>& vals) {
     int cs = 0;
@@ -132,6 +275,8 @@ static void alias_rational(const std::string& kind, const std::vector<Integer>& 
         if (!isZero(A)) { R = A / A; X = A; X /= X; emit(kind, "op/=", "rr", cs, sh(R), sh(X)); }
         X = A; X = X + X; emit(kind, "x=x+x", "rab", cs, sh(A + A), sh(X));
         X = A; X = X * X; emit(kind, "x=x*x", "rab", cs, sh(A * A), sh(X));
+        X = A; X = X - X; emit(kind, "x=x-x", "rab", cs, sh(A - A), sh(X));
+        if (!isZero(A)) { X = A; X = X / X; emit(kind, "x=x/x", "rab", cs, sh(A / A), sh(X)); }
     }
 }
 
@@ -179,6 +324,45 @@ int main(int argc, char** argv) {
     const int npoly = tier == "thorough" ? 400 : 40;
     if (only.empty() || only == "Poly1Dom_Modular_int32") { Modular<int32_t> F(101); Poly1Dom<Modular<int32_t>, Dense> P(F, Indeter("X")); alias_poly("Poly1Dom_Modular_int32", P, rng, npoly); }
     if (only.empty() || only == "Poly1Dom_QField") { QField<Rational> F; Poly1Dom<QField<Rational>, Dense> P(F, Indeter("X")); alias_poly("Poly1Dom_QField", P, rng, npoly / 4); }
+    // second part (own generator: the lines above do not depend on it)
+    vp::Rng rng2(seed * 1000003 + 77);
+    if (only.empty() || only == "Poly1Dom_Modular_int32") { Modular<int32_t> F(101); Poly1Dom<Modular<int32_t>, Dense> P(F, Indeter("X")); alias_poly2("Poly1Dom_Modular_int32", P, rng2, npoly); }
+    if (only.empty() || only == "Poly1Dom_QField") { QField<Rational> F; Poly1Dom<QField<Rational>, Dense> P(F, Indeter("X")); alias_poly2("Poly1Dom_QField", P, rng2, npoly / 4); }
+    if (only.empty() || only == "Poly1Dom_Modular_ruint7") { Modular<RecInt::ruint<7>> F(RecInt::ruint<7>(4294967291u)); Poly1Dom<Modular<RecInt::ruint<7>>, Dense> P(F, Indeter("X")); alias_poly("Poly1Dom_Modular_ruint7", P, rng2, npoly / 4); alias_poly2("Poly1Dom_Modular_ruint7", P, rng2, npoly / 4); }
+    if (only.empty() || only == "Poly1Dom_Modular_Log16") { Modular<Log16> F(1009); Poly1Dom<Modular<Log16>, Dense> P(F, Indeter("X")); alias_poly("Poly1Dom_Modular_Log16", P, rng2, npoly / 4); alias_poly2("Poly1Dom_Modular_Log16", P, rng2, npoly / 4); }
+    // more rings
+    // (moduli within maxCardinality: 2^(N/2) for Compute_t = Storage_t, 2^(N-1) resp. 2^N-1 for a double-width Compute_t)
+    RINGP("Modular_int8", Modular<int8_t>, int8_t(13))
+    RINGP("Modular_uint8", Modular<uint8_t>, uint8_t(13))
+    RINGP("Modular_uint16", Modular<uint16_t>, uint16_t(251))
+    if (only.empty() || only == "Modular_uint32_32") { Modular<uint32_t, uint32_t> F_(65521u); alias_ring("Modular_uint32_32", F_, vals); }
+    if (only.empty() || only == "Modular_int8_16") { Modular<int8_t, int16_t> F_(int8_t(113)); alias_ring("Modular_int8_16", F_, vals); }
+    if (only.empty() || only == "Modular_uint8_16") { Modular<uint8_t, uint16_t> F_(uint8_t(251)); alias_ring("Modular_uint8_16", F_, vals); }
+    if (only.empty() || only == "Modular_uint16_32") { Modular<uint16_t, uint32_t> F_(uint16_t(65521)); alias_ring("Modular_uint16_32", F_, vals); }
+    if (only.empty() || only == "Modular_uint32_64") { Modular<uint32_t, uint64_t> F_(4294967291u); alias_ring("Modular_uint32_64", F_, vals); }
+    if (only.empty() || only == "Modular_int32_64") { Modular<int32_t, int64_t> F_(int32_t(2147483647)); alias_ring("Modular_int32_64", F_, vals); }
+    if (only.empty() || only == "Modular_uint64_128") { Modular<uint64_t, __uint128_t> F_(uint64_t(18446744073709551557ull)); alias_ring("Modular_uint64_128", F_, vals); }
+    RINGP("Modular_rint7", Modular<RecInt::rint<7>>, RecInt::rint<7>(2147483647))
+    RINGP("Modular_ruint6", Modular<RecInt::ruint<6>>, RecInt::ruint<6>(65521u))
+    if (only.empty() || only == "Modular_ruint6_7") { Modular<RecInt::ruint<6>, RecInt::ruint<7>> F_(RecInt::ruint<6>(4294967291u)); alias_ring("Modular_ruint6_7", F_, vals); }
+    RINGP("Montgomery_ruint6", Montgomery<RecInt::ruint<6>>, RecInt::ruint<6>(4294967291u))
+    RINGP("Montgomery_ruint8", Montgomery<RecInt::ruint<8>>, RecInt::ruint<8>(4294967291u))
+    if (only.empty() || only == "ZRing_Integer") { ZRing<Integer> F_; alias_ring("ZRing_Integer", F_, vals); }
+    if (only.empty() || only == "ZRing_double") { ZRing<double> F_; alias_ring("ZRing_double", F_, vals); }
+    if (only.empty() || only == "ZRing_int64") { ZRing<int64_t> F_; alias_ring("ZRing_int64", F_, std::vector<Integer>(vals.begin(), vals.begin() + 16)); }
+    // the primary template (modular-inttype.h): any pair of types no specialisation takes
+    if (only.empty() || only == "Modular_int16_int64") { Modular<int16_t, int64_t> F_(int16_t(181)); alias_ring("Modular_int16_int64", F_, vals); }
+    if (only.empty() || only == "GF2") { GF2 F_; alias_ring("GF2", F_, vals); }
+    if (only.empty() || only == "GFqDom_int64") { GFqDom<int64_t> F_(5u, 3u); alias_ring("GFqDom_int64", F_, vals); }
+    if (only.empty() || only == "Extension_Modular_double") {
+        typedef Modular<double> B; typedef Poly1Dom<B, Dense> P;
+        B base(7.); P pd(base, Indeter("Y")); P::Element irr; B::Element e;
+        const int c7[] = {1, 1, 0, 1};                  // Y^3 + Y + 1: no root modulo 7, hence irreducible
+        pd.init(irr, Degree(3));
+        for (int j = 0; j < 4; ++j) { base.init(e, Integer(c7[j])); irr[size_t(j)] = e; }
+        Extension<B> F_(pd, irr);
+        alias_ring("Extension_Modular_double", F_, vals);
+    }
     if (only.empty() || only == "Rational_ops") alias_rational("Rational_ops", vals);
     return 0;
 }
